@@ -159,9 +159,12 @@ func ruleC12Gate(e *Env) {
 	for _, sc := range []struct {
 		name string
 		dyn  types.Type
-	}{{"Delim", delimT}, {"Number", numberT}, {"string", types.Typ[types.String]}, {"other (bool/nil/float)", types.Typ[types.Bool]}} {
+	}{{"Delim", delimT}, {"Number", numberT}, {"string", types.Typ[types.String]}, {"other (bool/float)", types.Typ[types.Bool]}, {"null", nil}} {
 		sums := map[string]pred.Summary{
 			"(*encoding/json.Decoder).Token": func(ev *pred.Evaluator, args []pred.Val) (pred.Val, error) {
+				if sc.dyn == nil { // the JSON value null: Token returns a nil interface with a nil error
+					return pred.Tuple{pred.Const{}, pred.Const{}}, nil
+				}
 				return pred.Tuple{pred.Iface{Dyn: sc.dyn, V: pred.Sym{Name: "tok"}}, pred.Const{}}, nil
 			},
 			ut.String(): func(ev *pred.Evaluator, args []pred.Val) (pred.Val, error) {
@@ -584,32 +587,32 @@ func ruleSkipper(e *Env, rule string, skip *ssa.Function) {
 			e.S.Unk(rule, ssite, "depth counter", "no nesting counter starting at 1 found (idioms: depth++ on '{' '[', depth-- on other delimiters, stop at 0)", e.Pos(skip))
 			return
 		}
-		incOK, decOK, exitOK := false, false, false
-		var opens []int64
-		for _, b := range skip.Blocks {
-			for _, in := range b.Instrs {
-				bo, ok := in.(*ssa.BinOp)
-				if !ok {
-					continue
-				}
-				if k, isK := flow.ConstInt(bo.Y); isK {
-					switch {
-					case bo.Op == token.ADD && k == 1 && phiChain(bo.X, depth):
-						incOK = true
-					case bo.Op == token.SUB && k == 1 && phiChain(bo.X, depth):
-						decOK = true
-					case (bo.Op == token.EQL || bo.Op == token.NEQ || bo.Op == token.GTR || bo.Op == token.LEQ) && k == 0 && phiChain(bo.X, depth):
-						exitOK = true // `depth == 0` at the loop tail, or `depth != 0` / `depth > 0` as the loop condition (depth starts at 1)
-					case (bo.Op == token.EQL || bo.Op == token.NEQ) && (k == '{' || k == '['):
-						opens = append(opens, k)
-					}
-				}
+		// the counter's transfer function, one iteration per token class
+		bad, und := "", ""
+		for _, c := range []struct {
+			name  string
+			class int
+			delta int
+		}{{"a scalar token", -1, 0}, {"'{'", '{', 1}, {"'['", '[', 1}, {"'}'", '}', -1}, {"']'", ']', -1}} {
+			st, err := flow.SkipLoopStep(skip, depth, c.class)
+			switch {
+			case err != nil:
+				und = fmt.Sprintf("on %s: %v", c.name, err)
+			case st.Returned:
+				bad = fmt.Sprintf("on %s the skip ends without the counter having reached zero", c.name)
+			case st.Delta != c.delta:
+				bad = fmt.Sprintf("on %s the counter changes by %+d, the nesting depth by %+d", c.name, st.Delta, c.delta)
+			case c.delta < 0 && !st.Tested:
+				bad = fmt.Sprintf("after %s the decreased counter is not tested against zero: the skip runs past the end of the member's value", c.name)
 			}
 		}
-		if incOK && decOK && exitOK && len(opens) == 2 {
-			e.S.Ok(rule, ssite, "depth counter", "depth starts at 1, +1 on '{' and '[', −1 on the other delimiters, the skip ends at 0", e.Pos(skip))
-		} else {
-			e.S.Bad(rule, ssite, "depth counter", fmt.Sprintf("nesting counter is not the documented one (increment:%v decrement:%v stop-at-0:%v opening delimiters:%q)", incOK, decOK, exitOK, opens), e.Pos(skip), `{"x":[[1]],"value":1,"unit":"B"}`)
+		switch {
+		case und != "":
+			e.S.Unk(rule, ssite, "depth counter", "the loop is not decided by the token class ("+und+")", e.Pos(skip))
+		case bad != "":
+			e.S.Bad(rule, ssite, "depth counter", "nesting counter is not the documented one: "+bad, e.Pos(skip), `{"x":[[1]],"value":1,"unit":"B"}`)
+		default:
+			e.S.Ok(rule, ssite, "depth counter", "per token class: depth starts at 1, +1 on '{' and '[', −1 on '}' and ']' followed by the test against 0 whose zero side returns nil, unchanged on any other token", e.Pos(skip))
 		}
 	}
 }
